@@ -56,7 +56,7 @@ pub fn profile(name: &str) -> Profile {
             queues: 4,
             steps: 40,
             weights: [6, 3, 50, 30, 3, 8],
-            lens: vec![(40, 15), (20_000, 35), (60_000, 35), (140_000, 15)],
+            lens: vec![(1, 8), (40, 12), (20_000, 33), (60_000, 33), (140_000, 14)],
             max_batch: 3,
             explicit_pos_percent: 10,
             reject_percent: 3,
@@ -67,7 +67,7 @@ pub fn profile(name: &str) -> Profile {
             queues: 2,
             steps: 16,
             weights: [8, 3, 55, 20, 4, 10],
-            lens: vec![(40, 20), (33_000, 30), (140_000, 30), (300_000, 20)],
+            lens: vec![(1, 6), (40, 16), (33_000, 30), (140_000, 28), (300_000, 20)],
             max_batch: 3,
             explicit_pos_percent: 10,
             reject_percent: 3,
